@@ -116,7 +116,7 @@ package message
 //@   ensures result == ctxOf(m) [own-context-or-background]
 
 //@ func (*Message).SetContext
-//@   requires m != nil
+//@   requires m != nil [panics-otherwise-nil-message]
 //@   nopanic
 //@   ensures m.ctx == ctx [set]
 //@   modifies m.ctx
